@@ -15,7 +15,7 @@ package ocsp
 //@   ensures err == nil ==> ret != nil
 //@   ensures[C02] revoked_answer_is_reported: called(OCSPRevocationChecker.parseOcspResponse#1) && res(OCSPRevocationChecker.parseOcspResponse#1, 1) == nil && res(OCSPRevocationChecker.parseOcspResponse#1, 0).SerialNumber != nil && big(res(OCSPRevocationChecker.parseOcspResponse#1, 0).SerialNumber) == big(clientCertificate.SerialNumber) ==> err == nil && ret.Revoked == (res(OCSPRevocationChecker.parseOcspResponse#1, 0).Status == ocsp.Revoked)
 //@   ensures[C02] cached_answer_is_returned: called(OCSPRevocationChecker.tryGetResponseFromCache#1) && res(OCSPRevocationChecker.tryGetResponseFromCache#1, 1) == nil ==> err == nil && ret == res(OCSPRevocationChecker.tryGetResponseFromCache#1, 0)
-//@   ensures[C02,C05] strict_needs_an_answer: called(OCSPRevocationChecker.filterHTTPOCSPServers#1) && !(called(OCSPRevocationChecker.parseOcspResponse#1) && res(OCSPRevocationChecker.parseOcspResponse#1, 1) == nil && res(OCSPRevocationChecker.parseOcspResponse#1, 0).SerialNumber != nil && big(res(OCSPRevocationChecker.parseOcspResponse#1, 0).SerialNumber) == big(clientCertificate.SerialNumber)) && c.ocspConfig.OCSPAIAStrict && len(res(OCSPRevocationChecker.filterHTTPOCSPServers#1)) > 0 ==> err != nil
+//@   ensures[C02,C03,C05] strict_needs_an_answer: called(OCSPRevocationChecker.filterHTTPOCSPServers#1) && !(called(OCSPRevocationChecker.parseOcspResponse#1) && res(OCSPRevocationChecker.parseOcspResponse#1, 1) == nil && res(OCSPRevocationChecker.parseOcspResponse#1, 0).SerialNumber != nil && big(res(OCSPRevocationChecker.parseOcspResponse#1, 0).SerialNumber) == big(clientCertificate.SerialNumber)) && c.ocspConfig.OCSPAIAStrict && len(res(OCSPRevocationChecker.filterHTTPOCSPServers#1)) > 0 ==> err != nil
 //@   ensures[C02] lenient_never_rejects_for_unavailability: called(OCSPRevocationChecker.filterHTTPOCSPServers#1) && !(called(OCSPRevocationChecker.parseOcspResponse#1) && res(OCSPRevocationChecker.parseOcspResponse#1, 1) == nil && res(OCSPRevocationChecker.parseOcspResponse#1, 0).SerialNumber != nil && big(res(OCSPRevocationChecker.parseOcspResponse#1, 0).SerialNumber) == big(clientCertificate.SerialNumber)) && !(c.ocspConfig.OCSPAIAStrict && len(res(OCSPRevocationChecker.filterHTTPOCSPServers#1)) > 0) ==> err == nil && !ret.Revoked
 //@   ensures[C05] answer_is_about_this_certificate: err == nil && ret.OcspResponse != nil && !(called(OCSPRevocationChecker.tryGetResponseFromCache#1) && res(OCSPRevocationChecker.tryGetResponseFromCache#1, 1) == nil) ==> ret.OcspResponse.SerialNumber != nil && big(ret.OcspResponse.SerialNumber) == big(clientCertificate.SerialNumber)
 //@   ensures[C14,C05] only_answers_are_cached: called(CacheTable.Add#any) ==> called(OCSPRevocationChecker.parseOcspResponse#1) && res(OCSPRevocationChecker.parseOcspResponse#1, 1) == nil && res(OCSPRevocationChecker.parseOcspResponse#1, 0).SerialNumber != nil && big(res(OCSPRevocationChecker.parseOcspResponse#1, 0).SerialNumber) == big(clientCertificate.SerialNumber) && arg(CacheTable.Add#any, 2) > 0
@@ -25,6 +25,7 @@ package ocsp
 //@   loop 1 invariant ocspOK(c)
 //@   loop 2 invariant ocspOK(c)
 //@   loop 1 iter_ensures[C02] failed_responder_does_not_end_the_search: !(called(OCSPRevocationChecker.parseOcspResponse#1) && res(OCSPRevocationChecker.parseOcspResponse#1, 1) == nil && res(OCSPRevocationChecker.parseOcspResponse#1, 0).SerialNumber != nil && big(res(OCSPRevocationChecker.parseOcspResponse#1, 0).SerialNumber) == big(clientCertificate.SerialNumber))
+//@   loop 2 iter_ensures[C05,C14] a_search_that_continues_has_cached_nothing: !called(CacheTable.Add#any)
 //@   loop 2 iter_ensures[C02] failed_candidate_does_not_end_the_search: !(called(OCSPRevocationChecker.parseOcspResponse#1) && res(OCSPRevocationChecker.parseOcspResponse#1, 1) == nil && res(OCSPRevocationChecker.parseOcspResponse#1, 0).SerialNumber != nil && big(res(OCSPRevocationChecker.parseOcspResponse#1, 0).SerialNumber) == big(clientCertificate.SerialNumber))
 
 //@ func OCSPRevocationChecker.parseOcspResponse
